@@ -323,6 +323,12 @@ def gen_cases(ctx):
                 path, _ = rng.choice(pool)
                 pred = ["and", pred, ["cmp", list(path), rng.choice(SYMS[1:]), rng.choice([{"none": 1}, {"t": "A"}])]]
             if for_order and j % 2 == 0:
+                if rng.random() < 0.45:
+                    # a broad selection, so that ordering and slicing have something to work on
+                    pred = rng.choice([["attr_contains", "path_prefix", rng.choice(["p", "o", "u"])],
+                                       ["attr_contains", "name", rng.choice(["i", "r", "a"])],
+                                       ["or", ["attr_bool", "is_complete"], ["attr_contains", "name", "f"]],
+                                       ["attr_in", "path_prefix", "zp/qout"]])
                 attrs = ["name", "path_prefix", "max_log_likelihood", "is_complete", "is_grid_search", "unique_tag"]
                 keys = [[a, rng.random() < 0.4] for a in rng.sample(attrs, rng.randint(0, 2))]
                 keys.append(["id", rng.random() < 0.3])
